@@ -848,3 +848,86 @@ def rf139(run):
                           'other signedness (`i2d x, u64:(p)`) is converted with the signedness of its C type instead of the one the opcode '
                           'names' % (nm, txt, want), line=stmts[0]['l'] if stmts else f.line)
     return n
+
+
+# ---------------------------------------------------------------------------------------------
+# RF156: C text of the overflow instructions, executed with helpers inlined
+# ---------------------------------------------------------------------------------------------
+
+def rf156(run):
+    import re
+    from lib import printexec as PE
+    from lib import regions as R
+    rule = 'RF156'
+    run.rule(rule, 'mir2c out_insn, overflow instructions: the case region is executed abstractly (helpers of the unit included, strings and '
+                   'flags passed to them bound concretely) and the text is parsed into its __builtin_*_overflow calls.  ADDO / SUBO (and '
+                   'the S forms) compute __overflow with the signed type into the destination and __uoverflow with the unsigned type into a '
+                   'temporary; MULO(S) only __overflow, UMULO(S) only __uoverflow; widths follow the opcode.  The call that stores the '
+                   'destination is the *last* one: the destination may be a source operand (`addo a, a, b`), and a flag computed after the '
+                   'store reads the new value')
+    tu = run.tu('mir2c')
+    f = tu.func('out_insn')
+    run.functions_analysed.add(('mir2c', f.name))
+    sws = R.find_switches(f, lambda c: c.replace(' ', '').endswith('code'))
+    if not sws:
+        raise F.AnalysisBroken('out_insn: switch on the opcode not found')
+    regs = R.switch_regions(f, max(sws, key=lambda s_: sum(1 for _ in F.walk(s_))))
+    codes = dict(tu.enum('MIR_insn_code_t'))
+    SPEC = {'MIR_ADDO': ('add', 64, ('s', 'u')), 'MIR_SUBO': ('sub', 64, ('s', 'u')), 'MIR_MULO': ('mul', 64, ('s',)), 'MIR_UMULO': ('mul', 64, ('u',)),
+            'MIR_ADDOS': ('add', 32, ('s', 'u')), 'MIR_SUBOS': ('sub', 32, ('s', 'u')), 'MIR_MULOS': ('mul', 32, ('s',)), 'MIR_UMULOS': ('mul', 32, ('u',))}
+    call_re = re.compile(r'(__u?overflow)\s*=\s*__builtin_(add|sub|mul)_overflow\s*\(\s*\((u?int(?:32|64)_t)\)\s*\$1\s*,\s*\((u?int(?:32|64)_t)\)\s*\$2\s*,\s*(&__u|\((u?int(?:32|64)_t)\s*\*\)\s*&\s*\$0)\s*\)')
+    n = 0
+    for nm, (op, w, flags) in SPEC.items():
+        idx = [i for i, r in enumerate(regs) if nm in [c[0] for c in r['cases']]]
+        if not idx:
+            raise F.AnalysisBroken('out_insn: no case for %s' % nm)
+        stmts = []
+        j = idx[0]
+        while True:
+            stmts += regs[j]['stmts']
+            if regs[j]['falls_into'] is None:
+                break
+            j = regs[j]['falls_into']
+
+        def opr(a, e, x):
+            t = F.src(F.strip(a[2])).replace(' ', '')
+            m = re.search(r'ops\[(\d)\]', t)
+            return '$%s' % (m.group(1) if m else '?')
+        ex = PE.PrintExec(tu, {}, {}, {'out_op': opr})
+        ex.exec_unit_calls = True
+        ex.concrete_ints = True
+        env = {'insn->code': codes[nm], 'code': codes[nm]}
+        try:
+            for st in stmts:
+                r_ = ex.run(st, env)
+                if r_ in ('break', 'return'):
+                    break
+        except F.AnalysisBroken as e_:
+            raise F.AnalysisBroken('out_insn (%s): %s' % (nm, e_))
+        txt = ' '.join(ex.text().split())
+        found = call_re.findall(txt)
+        why = None
+        if not found or len(found) != len(flags):
+            why = 'expected %d __builtin_%s_overflow call(s), text is `%s`' % (len(flags), op, txt[:140])
+        else:
+            seen = set()
+            for k, (flag, name, t1, t2, dst, t3) in enumerate(found):
+                sg = 'u' if flag == '__uoverflow' else 's'
+                want_t = ('u' if sg == 'u' else '') + 'int%d_t' % w
+                seen.add(sg)
+                if name != op or t1 != want_t or t2 != want_t or (t3 and t3 != want_t):
+                    why = '%s is computed by __builtin_%s_overflow on (%s, %s): expected %s on %s' % (flag, name, t1, t2, op, want_t)
+                stores = dst != '&__u'
+                # exactly one call stores the destination: the signed one when both flags are computed
+                if len(flags) == 2 and stores != (sg == 's'):
+                    why = 'the destination is stored by the %s computation' % ('unsigned' if sg == 'u' else 'temporary-only signed')
+                if stores and k != len(found) - 1:
+                    why = 'the call that stores the destination ($0) comes before the computation of %s, which reads $1 / $2 again: with ' \
+                          '`%s a, a, b` the second flag is computed from the result' % (found[-1][0], nm[4:].lower())
+            if why is None and seen != set(flags):
+                why = 'flags computed: %s, expected %s' % (sorted(seen), sorted(flags))
+        n += 1
+        run.ob(rule, (nm,), why is None, {'opcode': nm, 'text': txt[:200]})
+        if why:
+            run.violation(rule, f, 'C text of %s' % nm, 'mir2c translates %s wrongly: %s' % (nm, why), line=stmts[0]['l'] if stmts else f.line)
+    return n
